@@ -130,8 +130,12 @@ func (m *mAgglayer) lastAtHeight(h uint64) *mCert {
 }
 
 // certID: certificate ids are opaque to the node; the model makes them unique per submission.
-func certID(c *agglayertypes.Certificate, seq int) common.Hash {
-	return crypto.Keccak256Hash(c.Hash().Bytes(), c.Metadata.Bytes(), []byte{byte(seq >> 8), byte(seq)})
+// certID: like the real Agglayer, the model derives a certificate's id from its content (the certificate hash, which
+// covers network, height, exit roots and exits, plus the metadata). A retry that is byte-identical to the certificate it
+// replaces (same range, built within the same second, or - in the prover flow - reusing the stored proof and creation
+// time) therefore gets the SAME id; byID then names the latest submission with that id.
+func certID(c *agglayertypes.Certificate, _ int) common.Hash {
+	return crypto.Keccak256Hash(c.Hash().Bytes(), c.Metadata.Bytes())
 }
 
 // SendCertificate implements agglayer.AgglayerClientInterface.
